@@ -282,13 +282,25 @@ func c07AuthQueue(seed byte) types.AuthQueue {
 }
 
 func c07Validators(seed byte) types.ValidatorsData {
-	raw := make([]byte, 336*C07Validators)
-	for i := range raw {
-		raw[i] = seed + byte(i)
+	v := make(types.ValidatorsData, C07Validators)
+	i := 0
+	nextByte := func() byte { x := seed + byte(i); i++; return x }
+	for k := range v {
+		for j := range v[k].Bandersnatch {
+			v[k].Bandersnatch[j] = nextByte()
+		}
+		for j := range v[k].Ed25519 {
+			v[k].Ed25519[j] = nextByte()
+		}
+		for j := range v[k].Bls {
+			v[k].Bls[j] = nextByte()
+		}
+		for j := range v[k].Metadata {
+			v[k].Metadata[j] = nextByte()
+		}
 	}
-	var v types.ValidatorsData
-	if err := types.NewDecoder().Decode(raw, &v); err != nil {
-		panic("verifh: validators " + err.Error())
+	if i != 336*C07Validators {
+		panic("verifh: validator record is not 336 octets")
 	}
 	return v
 }
@@ -517,9 +529,13 @@ func trimZeros(b []byte) []byte {
 	return b[:n]
 }
 
+// digest8: a 62-bit polynomial checksum of a large context component (authorisation queue, validator keys)
 func digest8(b []byte) string {
-	d := hash.Blake2bHash(b)
-	return h.Hex(d[:8])
+	hv := uint64(1469598103)
+	for _, x := range b {
+		hv = (hv*1000003 + uint64(x) + 1) & 0x3fffffffffffffff
+	}
+	return fmt.Sprintf("%016x", hv)
 }
 
 func (m *c07Machine) acct(id types.ServiceID, a types.ServiceAccount, kv *types.StateKeyVals) string {
@@ -587,13 +603,13 @@ func (m *c07Machine) ctx(c *PVM.ResultContext) string {
 	}
 	var aq []string
 	for _, q := range ps.Authorizers {
-		var raw []byte
+		raw := make([]byte, 0, 32*len(q))
 		for _, hh := range q {
 			raw = append(raw, hh[:]...)
 		}
 		aq = append(aq, digest8(raw))
 	}
-	var vk []byte
+	vk := make([]byte, 0, 336*len(ps.ValidatorKeys))
 	for _, v := range ps.ValidatorKeys {
 		vk = append(vk, v.Bandersnatch[:]...)
 		vk = append(vk, v.Ed25519[:]...)
